@@ -230,7 +230,7 @@ Record ready := mkReady {
   r_cn : N; r_cfirst : N; r_clast : N        (* rd.CommittedEntries *)
 }.
 
-Record batch := mkBatch { b_first : N; b_last : N; b_n : N; b_tag : N }.
+Record batch := mkBatch { b_first : N; b_last : N; b_n : N }.
 
 Inductive rd_pc :=
 | RdIdle
@@ -258,8 +258,9 @@ Inductive rc_pc := RcStart | RcChosen (i : N) | RcRestored (i : N) | RcNone | Rc
    segment still in the process buffer / not fdatasync'ed), snapfiles, ckpts (complete checkpoints with
    their content), engine (None: content not to be trusted).
    volatile: rc (restart program), nrel (the first nrel live segments are not locked by this process),
-   wstate/wcommit (WAL.state), hcommit (commit of the last hard state raft handed out), latest
-   (RockDB.latestSnapIndex), rdp/rdseq/rd_done/rs_last/published (raft loop), queue (commitC),
+   wstate/wcommit (WAL.state), hcommit (commit of the last hard state saved or read back), latest
+   (RockDB.latestSnapIndex), rdp/rdseq/rs_last/published (raft loop), rd_done (highest published index whose
+   Ready has finished its disk writes: raftDone sent), queue (commitC),
    app/applied/snapi (apply loop), sns (snapshot goroutines), ckp (backup loop), pg_* (purge loops).
    ghost: acked (highest index whose result reached the client), proposed (highest index handed out). *)
 Record state := mkState {
@@ -320,7 +321,7 @@ Definition set_acked (s : state) (v : N) : state := mkState (segs s) (unflushed 
 Definition set_proposed (s : state) (v : N) : state := mkState (segs s) (unflushed s) (unsynced s) (snapfiles s) (ckpts s) (engine s) (rc s) (nrel s) (wstate s) (wcommit s) (hcommit s) (latest s) (rdp s) (rdseq s) (rd_done s) (rs_last s) (published s) (queue s) (app s) (applied s) (snapi s) (sns s) (ckp s) (pg_wal s) (pg_snap s) (acked s) v.
 
 
-Notation "s <| f := v |>" := (f s v) (at level 12, left associativity, f at level 0).
+Notation "s <| f := v |>" := (f s v) (at level 12, left associativity, f at level 0, only parsing).
 
 (* a fresh directory: CleanData, wal.Create writes the marker of the empty snapshot *)
 Definition init_state : state :=
@@ -370,7 +371,8 @@ Definition ready_records (r : ready) : list rec :=
 
 (* what the raft library may hand out (checked on every observed Ready by the acceptor):
    entries continue the log without a gap, committed entries continue the published ones and
-   exist, the commit index never goes back and covers the committed entries *)
+   exist, the commit index never goes back (neither behind the last one handed out nor behind the last one
+   in the WAL) and covers the committed entries *)
 Definition ready_ok (s : state) (r : ready) : bool :=
   let last' := if 0 <? r_n r then r_last r else rs_last s in
   let commit' := if r_hs r then r_commit r else hcommit s in
@@ -378,7 +380,7 @@ Definition ready_ok (s : state) (r : ready) : bool :=
   && (if 0 <? r_cn r then (r_cfirst r =? published s + 1) && (r_clast r + 1 =? r_cfirst r + r_cn r)
                           && (r_clast r <=? last') && (r_clast r <=? commit')
       else true)
-  && (if r_hs r then (hcommit s <=? r_commit r) && (r_commit r <=? last') else true).
+  && (if r_hs r then (hcommit s <=? r_commit r) && (last_commit (all_recs (segs s)) <=? r_commit r) && (r_commit r <=? last') else true).
 
 (* wal.ReleaseLockTo(i) on the locked segments ls (positions from nrel on): keep from the segment just
    before the first one whose name index is >= i (or only the last one) *)
@@ -423,7 +425,8 @@ Definition save_records (s : state) (r : ready) : state :=
   let n := length rs in
   s <| set_segs := app_tail (segs s) rs |> <| set_unflushed := (unflushed s + n)%nat |>
     <| set_unsynced := (unsynced s + n)%nat |>
-    <| set_wstate := wstate s || r_hs r |> <| set_wcommit := if r_hs r then r_commit r else wcommit s |>.
+    <| set_wstate := wstate s || r_hs r |> <| set_wcommit := if r_hs r then r_commit r else wcommit s |>
+    <| set_hcommit := if r_hs r then r_commit r else hcommit s |>.
 
 (* the crash images of a state (process death): j <= unflushed buffered records never reached the file;
    or, when a Save is between its two events, the buffered records and [extra] of its own did *)
@@ -447,7 +450,6 @@ Definition step (c : config) (s : state) (ev : event) : result state :=
       if negb (running s) then Err R_PC
       else if negb (ready_ok s r) then Err R_ENV
       else Ok (s <| set_rdp := RdBegun r false false |> <| set_rdseq := rdseq s + 1 |>
-                 <| set_hcommit := if r_hs r then r_commit r else hcommit s |>
                  <| set_proposed := N.max (proposed s) (if 0 <? r_n r then r_last r else 0) |>)
     | _ => Err R_PC
     end
@@ -495,7 +497,7 @@ Definition step (c : config) (s : state) (ev : event) : result state :=
     | RdBegun r sv false =>
       if overlap r && negb sv then Err R_GUARD
       else if negb (n =? r_cn r) || ((0 <? r_cn r) && negb (lastp =? r_clast r)) then Err R_ARG
-      else Ok (s <| set_queue := queue s ++ [mkBatch (r_cfirst r) (r_clast r) (r_cn r) (rdseq s)] |>
+      else Ok (s <| set_queue := queue s ++ [mkBatch (r_cfirst r) (r_clast r) (r_cn r)] |>
                  <| set_published := if 0 <? r_cn r then r_clast r else published s |>
                  <| set_rdp := RdBegun r sv true |>)
     | _ => Err R_PC
@@ -504,7 +506,7 @@ Definition step (c : config) (s : state) (ev : event) : result state :=
     match rdp s with
     | RdBegun r true p =>
       if (0 <? r_cn r) && negb p then Err R_GUARD
-      else Ok (s <| set_rs_last := if 0 <? r_n r then r_last r else rs_last s |> <| set_rd_done := rdseq s |>
+      else Ok (s <| set_rs_last := if 0 <? r_n r then r_last r else rs_last s |> <| set_rd_done := published s |>
                  <| set_rdp := RdAppended r |>)
     | _ => Err R_PC
     end
@@ -541,7 +543,7 @@ Definition step (c : config) (s : state) (ev : event) : result state :=
     end
   | EvApRaftDone a =>
     match app s with
-    | ApApplied b => if b_tag b <=? rd_done s then Ok (s <| set_app := ApDone |>) else Err R_GUARD
+    | ApApplied b => if (b_n b =? 0) || (b_last b <=? rd_done s) then Ok (s <| set_app := ApDone |>) else Err R_GUARD
     | _ => Err R_PC
     end
   | EvApTriggerBefore a sn =>
@@ -714,7 +716,7 @@ Definition step (c : config) (s : state) (ev : event) : result state :=
       | Ok (ents, cm), Some p =>
         if negb (n =? N.of_nat (length ents)) || negb (lastp =? last_of ents) || negb (commit =? cm) then Err R_ARG
         else Ok (s <| set_nrel := p |> <| set_rs_last := if n =? 0 then i else last_of ents |> <| set_published := i |>
-                   <| set_applied := i |> <| set_snapi := i |> <| set_hcommit := cm |> <| set_rc := RcRunning |>)
+                   <| set_applied := i |> <| set_snapi := i |> <| set_hcommit := cm |> <| set_rd_done := i |> <| set_rc := RcRunning |>)
       | Err e, _ => Err R_RECOVER
       | _, None => Err R_RECOVER
       end in
